@@ -75,7 +75,7 @@ func registerKinds() {
 	kinds["debian"] = kindDef{typ: "debian", eco: "eco_debian", requires: "Semantic.Debian", print: printDebian}
 	kinds["pypi"] = kindDef{typ: "pypi", eco: "eco_pypi", requires: "Semantic.Pypi Semantic.PypiParse", print: printPypi, lowers: true}
 	kinds["packagist"] = kindDef{typ: "packagist", eco: "eco_packagist", requires: "Semantic.Packagist", print: printPackagist}
-	kinds["alpine"] = kindDef{typ: "alpine", eco: "eco_alpine", requires: "Semantic.Alpine", print: printAlpine}
+	kinds["alpine"] = kindDef{typ: "alpine", eco: "eco_alpine", requires: "Semantic.Alpine Semantic.AlpineParse", print: printAlpine}
 	kinds["maven"] = kindDef{typ: "maven", eco: "eco_maven", requires: "Semantic.Maven", print: printMaven, lowers: true}
 	kinds["redhat"] = kindDef{typ: "redhat", eco: "eco_redhat", requires: "Semantic.Redhat", print: printRedhat}
 }
